@@ -236,7 +236,7 @@ pub mod rust_log_ref_finder
                              * A key may be written as a string literal ("ref" = 5); for the
                              * log crate that is the same key.
                              */
-                            if kvp_key.as_str().trim_matches('"') == ref_kvp_key
+                            if kvp_key.as_str().trim().trim_matches('"') == ref_kvp_key
                             {
                                 match kvp_value
                                 {
